@@ -10,6 +10,9 @@ on the implementation rather than relying on timing luck:
     compared, call by call, with the same call made alone on a freshly compiled specification;
   * values passed to encode are compared with a deep copy taken before the call."""
 import copy
+import datetime
+import os
+import pickle
 import sys
 import threading
 
@@ -23,6 +26,121 @@ Tree ::= SEQUENCE { v INTEGER (0..255), kids SEQUENCE OF Tree OPTIONAL }
 Shared ::= SEQUENCE { a Leaf, b Leaf DEFAULT 3, c SEQUENCE (SIZE(0..3)) OF Leaf }
 Leaf ::= INTEGER (0..10)
 '''
+
+# kinds outside the generator's universe whose codecs share module-level helpers (OBJECT IDENTIFIER sub-identifiers,
+# REAL, time strings, named bits): small value pools, so that the same sub-values recur within one sequence
+EXOTIC = '''
+Oid ::= OBJECT IDENTIFIER
+Re ::= REAL
+Ut ::= UTCTime
+Gt ::= GeneralizedTime
+Nb ::= BIT STRING { a(0), b(1), c(5) }
+Bs ::= BMPString
+Us ::= UniversalString
+Mix ::= SEQUENCE { o Oid, r Re OPTIONAL, s SET OF Oid, n Nb DEFAULT {a}, t Ut OPTIONAL }
+'''
+OIDS = ['2.999.3', '2.999.4.1', '1.3.1079', '2.100.5', '1.2.840.113549.1.1', '2.5.4.3', '0.9.2342', '2.999', '1.3.6.1.4.1.128.300', '2.48.1.1']
+REALS = [0.0, 1.5, -2.25, 1e10, 1e-300, 1.7976931348623157e308, 5e-324, float('inf'), float('-inf'), 3.0, 0.1]
+TIMES = [datetime.datetime(2020, 1, 2, 3, 4, 5), datetime.datetime(1999, 12, 31, 23, 59, 59), datetime.datetime(2038, 1, 19, 3, 14, 7)]
+NBS = [(b'\x80', 1), (b'\x04', 6), (b'\xc4', 6), (b'', 0), (b'\x80\x00', 9)]
+TEXTS = ['', 'ab', 'x\u00e5\u4e2d', 'abcdefghijklmnop' * 9]
+
+
+class Pool:
+    """value source with the interface of Gen.value for the fixed exotic types"""
+
+    def __init__(self, rng):
+        self.rng = rng
+
+    def value(self, t):
+        r = self.rng
+        if t == 'Oid':
+            return r.choice(OIDS)
+        if t == 'Re':
+            return r.choice(REALS)
+        if t in ('Ut', 'Gt'):
+            return r.choice(TIMES)
+        if t == 'Nb':
+            return r.choice(NBS)
+        if t in ('Bs', 'Us'):
+            return r.choice(TEXTS)
+        v = {'o': r.choice(OIDS), 's': [r.choice(OIDS) for _ in range(r.randrange(4))]}
+        if r.random() < 0.5:
+            v['r'] = r.choice(REALS)
+        if r.random() < 0.5:
+            v['n'] = r.choice(NBS)
+        if r.random() < 0.5:
+            v['t'] = r.choice(TIMES)
+        return v
+
+
+class Pristine:
+    """The oracle "the same call made alone on a freshly compiled specification": a server process forked before this
+    run made any encode/decode call; for every call it forks a child that compiles the module text and makes that single
+    call.  State kept outside the Specification (module-level caches, class attributes) therefore cannot leak from the
+    sequence under test into the oracle."""
+
+    def __init__(self):
+        import multiprocessing as mp
+        mctx = mp.get_context('fork')
+        self.conn, child = mctx.Pipe()
+        self.proc = mctx.Process(target=Pristine._serve, args=(child,), daemon=True)
+        self.proc.start()
+        child.close()
+
+    @staticmethod
+    def _one(text, codec, op):
+        r, w = os.pipe()
+        pid = os.fork()
+        if pid == 0:
+            try:
+                os.close(r)
+                import asn1tools
+                try:
+                    res = do(asn1tools.compile_string(text, codec), op)
+                except BaseException as e:
+                    res = ('err', 'oracle:' + type(e).__name__, str(e)[:100])
+                with os.fdopen(w, 'wb') as f:
+                    f.write(pickle.dumps(res))
+            finally:
+                os._exit(0)
+        os.close(w)
+        return pid, r
+
+    @staticmethod
+    def _serve(conn):
+        while True:
+            try:
+                req = conn.recv()
+            except EOFError:
+                break
+            if req is None:
+                break
+            text, codec, ops = req
+            out = []
+            width = 12
+            for k in range(0, len(ops), width):
+                running = [Pristine._one(text, codec, op) for op in ops[k:k + width]]
+                for pid, r in running:
+                    with os.fdopen(r, 'rb') as f:
+                        data = f.read()
+                    os.waitpid(pid, 0)
+                    try:
+                        out.append(pickle.loads(data))
+                    except Exception:
+                        out.append(('err', 'oracle:died', ''))
+            conn.send(out)
+
+    def results(self, text, codec, ops):
+        self.conn.send((text, codec, ops))
+        return self.conn.recv()
+
+    def close(self):
+        try:
+            self.conn.send(None)
+        except Exception:
+            pass
+        self.proc.join(10)
 
 
 def reachable(root):
@@ -156,15 +274,16 @@ def run(ctx):
     import asn1tools
     rng = ctx.rng
     ctx.assumptions += ['CPython GIL / bytecode atomicity is not modelled: the theorem needs only that shared objects are never written, which is monitored, not proved',
-                        'sequential oracle = the same call on a freshly compiled specification']
+                        'oracle = the same call made alone on a freshly compiled specification in a freshly forked process (forked from a server that never encodes or decodes)']
     ctx.extra['rule'] = ('modules with a recursive type, a sub-type shared by several members, and generated reorganised types (type references) x 8 codecs; '
                          'op sequences (encode valid/invalid, decode valid/truncated/corrupted) of length %s; distinct = distinct (module, codec, op)' % ('<=30' if ctx.quick() else '<=50'))
-    nmod = ctx.n(12, 150)
+    nmod = ctx.n(16, 150)
+    pristine = Pristine()
     for mi in range(nmod):
         g = Gen(rng, Opts(max_depth=2, allow_exotic=0.0))
         t = g.type()
         rc = RefCtx(rng, p_type=0.5)
-        text = module_text([('A', t)], ctx=rc).replace('END\n', RECURSIVE + 'END\n')
+        text = module_text([('A', t)], ctx=rc).replace('END\n', RECURSIVE + EXOTIC + 'END\n')
         codec = CODECS[mi % len(CODECS)] if ctx.quick() else rng.choice(CODECS)
         try:
             spec = asn1tools.compile_string(text, codec)
@@ -173,15 +292,15 @@ def run(ctx):
             continue
         tree = {'v': 1, 'kids': [{'v': 2}, {'v': 3, 'kids': [{'v': 4}]}]}
         shared = {'a': 1, 'c': [2, 3]}
-        types = [('A', t, g), ('Tree', None, tree), ('Shared', None, shared)]
+        pool = Pool(rng)
+        types = [('A', t, g), ('Tree', None, tree), ('Shared', None, shared)] + [(n, n, pool) for n in ('Oid', 'Oid', 'Mix', 'Mix', 'Re', 'Ut', 'Gt', 'Nb', 'Bs', 'Us')]
         ops = make_ops(rng, spec, types, ctx.n(30, 50))
         if codec == 'gser':
             ops = [op for op in ops if op[0] == 'enc'] or [('enc', 'Tree', tree)]
         # oracle: every op alone on a fresh specification
-        oracle = []
-        for op in ops:
-            fresh = asn1tools.compile_string(text, codec)
-            oracle.append(do(fresh, op))
+        oracle = pristine.results(text, codec, ops)
+        if any(o[0] == 'err' and o[1].startswith('oracle:') for o in oracle):
+            raise RuntimeError('oracle process failed: %r' % ([o for o in oracle if o[0] == 'err' and o[1].startswith('oracle:')][:2],))
         objs = reachable(spec)
         mon = WriteMonitor(objs)
         try:
@@ -248,6 +367,7 @@ def run(ctx):
             ctx.count('objects_monitored', len(objs))
         finally:
             mon.close()
+    pristine.close()
 
 
 def replay(ctx, path):
